@@ -17,6 +17,18 @@ CLAIMS = {
     },
 }
 
+CLAIMS["C02"] = {
+    "text": "Decides the durability-ordering clauses of C02 on every feasible CFG path: log sync before a sync write is "
+            "acknowledged (and never a sync follower behind a non-sync leader), sync = dir-sync, flush, fsync in order, "
+            "tables finished/synced/closed before they enter an edit, MANIFEST record synced before CURRENT is switched and "
+            "before the version is installed, obsolete files removed only after the new state is durable or the error was "
+            "latched, and a who-may-unlink/rename table. The file-system crash model itself is not decided.",
+    "design_ref": "DESIGN.md 5/C02",
+    "technique": "static analysis: path-sensitive must-pass-through / call-order automata and guard dominance on the clang CFG, plus who-may-call tables",
+    "note": "Necessary conditions only: a pass says no durability point was dropped, reordered or moved to another file; "
+            "it does not enumerate crash images. " + _TB,
+}
+
 _PENDING = ("check not built yet in this revision; the property is listed here so that it is not claimed "
             "without machinery (see DESIGN.md for the planned rules)")
 
